@@ -42,11 +42,8 @@ HARNESSES['lexing.whitespace_5'] = dict(LEXM, harness='whitespace_5', function='
     says='found_ok; a Space token covers only blanks (resp. tabs), a Newline token only LF')
 HARNESSES['lexing.whitespace_8'] = dict(LEXM, harness='whitespace_8', function='lex_spaces / lex_tabs / lex_newlines', bound='every [char] of length 0..=8, fully symbolic chars', timeout=1800,
     says='found_ok; a Space token covers only blanks (resp. tabs), a Newline token only LF')
-HARNESSES['lexing.hex_4'] = dict(LEXM, harness='hex_4', function='lex_hex_number', bound='every [char] of length 0..=4, fully symbolic chars', timeout=1800,
-    says='found_ok; hit = "0x" + hex digits, radix 16')
 HARNESSES['lexing.hostname_4'] = dict(LEXM, harness='hostname_4', function='lex_hostname_token', bound='every [char] of length 0..=4, fully symbolic chars', timeout=1800, says='found_ok')
 HARNESSES['lexing.url_4'] = dict(LEXM, harness='url_4', function='lex_url', bound='every [char] of length 0..=4, fully symbolic chars', timeout=2400, says='found_ok', covers=False)
-HARNESSES['lexing.email_4'] = dict(LEXM, harness='email_4', function='lex_email_address', bound='every [char] of length 0..=4, fully symbolic chars', timeout=2400, says='found_ok', covers=False)
 JSD = dict(crate='harper-comments', attach='harper-comments/src/comment_parsers/jsdoc.rs', file='jsdoc.rs', modpath='comment_parsers::jsdoc::__verif_kani_jsdoc', kind='bounded', unwind_is_violation=True)
 for _n in (4, 5, 6):
     HARNESSES[f'jsdoc.parse_inline_tag_{_n}'] = dict(JSD, harness=f'parse_inline_tag_{_n}', function='parse_inline_tag', timeout=900,
